@@ -164,7 +164,9 @@ class VCSStrategyGit(VCSStrategy):
         if not Path(directory).is_dir():
             raise NotADirectoryError()
 
-        command = [str(cls.EXE), "status"]
+        # Only a question is asked: Git need not refresh (and rewrite) the
+        # index of the repository while answering it.
+        command = [str(cls.EXE), "--no-optional-locks", "status"]
         result = execute_command(command, _LOGGER, cwd=directory)
 
         return not result.returncode
